@@ -1204,3 +1204,112 @@ def tu_names_seen(run, unit):
     avoid analysing the same included function twice"""
     tu = run.tu(unit)
     return {f.name for f in tu.func_list if f.body is not None}
+
+
+# ---------------------------------------------------------------------------------------------
+# RF141: the "by 2^0" shortcut of strength reduction is an identity only for multiply and divide
+# ---------------------------------------------------------------------------------------------
+
+def rf141(run):
+    from lib import absint as AI
+    rule = 'RF141'
+    run.rule(rule, 'transform_mul_div, evaluated for every opcode with a constant operand 2^0 = 1 (sh == 0): a plain move of the first source '
+                   'operand is emitted only for multiplications and divisions (x * 1 == x / 1 == x).  An opcode added to the function '
+                   'whose neutral element is not 1 (x % 1 == 0) must not reach that shortcut')
+    tu = run.tu('gen')
+    f = tu.func('transform_mul_div')
+    run.functions_analysed.add(('gen', f.name))
+    preds = EF.Predicates(tu)
+    codes = tu.enum('MIR_insn_code_t')
+    cd = dict(codes)
+    bound = cd['MIR_INSN_BOUND']
+    names = {}
+    for nm, v in codes:
+        names.setdefault(v, nm)
+    ident = {'MIR_MUL', 'MIR_MULS', 'MIR_UDIV', 'MIR_UDIVS', 'MIR_DIV', 'MIR_DIVS'}
+    n = 0
+    for nm, v in codes:
+        if v >= bound:
+            continue
+        col = AI.Collector(tu, preds, lambda x: x.get('callee') == 'MIR_new_insn')
+        env = {'insn->code': v, 'sh': 0}
+        try:
+            col.run(_without_assign(f.body, 'sh'), env)
+        except F.AnalysisBroken:
+            continue
+        movs = []
+        for call, e in col.hits:
+            cv = preds.eval(F.call_args(call)[1], e, frozenset())
+            if cv is not None and names.get(cv) == 'MIR_MOV' and 'ops[1]' in F.src(F.call_args(call)[3]) and 'ops[0]' in F.src(F.call_args(call)[2]):
+                movs.append(call)
+        if not col.hits:
+            continue
+        n += 1
+        ok = not movs or nm in ident
+        run.ob(rule, (nm,), ok, {'opcode': nm, 'replaced by a move for the constant 1': bool(movs)})
+        if not ok:
+            run.violation(rule, f, '%s by 1 becomes a move' % nm, 'transform_mul_div replaces `%s r, x, 1` by `mov r, x` (line %d): for this opcode the '
+                          'result with the constant 1 is not x (x %% 1 is 0), so -O2 and -O3 compute another value than the interpreter' %
+                          (nm[4:].lower(), movs[0]['l']), line=movs[0]['l'])
+    if n < 6:
+        raise F.AnalysisBroken('RF141: only %d opcodes transformed by transform_mul_div' % n)
+    return n
+
+
+# ---------------------------------------------------------------------------------------------
+# RF142: simplify_op takes "the address is one register" only when it is
+# ---------------------------------------------------------------------------------------------
+
+def rf142(run):
+    import itertools
+    from lib import printexec as PE
+    rule = 'RF142'
+    run.rule(rule, 'simplify_op, memory case: the shortcut that uses one register of the operand as the whole address is evaluated for every '
+                   'combination of base / index present, scale in {0, 1, 2, 8} and displacement in {0, 16}: whenever it is taken, the register '
+                   'it picks holds disp + base + index * scale (base alone with no index or scale 0; index alone with scale 1).  Otherwise '
+                   'the address arithmetic must be generated')
+    tu = run.tu('mir')
+    f = tu.func('simplify_op')
+    run.functions_analysed.add(('mir', f.name))
+    ifs = [x for x in f.walk() if x['k'] == 'IfStmt' and any(y['k'] == 'BinaryOperator' and y['op'] == '=' and F.src(F.strip(y['c'][0])) == 'addr_reg'
+                                                           and 'mem.' in F.src(y['c'][1]) for y in F.walk(x['c'][1]))]
+    if not ifs:
+        raise F.AnalysisBroken('simplify_op: the single-register shortcut was not found')
+    site = min(ifs, key=lambda x: x['l'])
+    n = 0
+    first = None
+    for base, index, scale, disp in itertools.product((0, 11), (0, 22), (0, 1, 2, 8), (0, 16)):
+        if base == 0 and index == 0:
+            continue
+        env = {'op->u.mem.base': base, 'op->u.mem.index': index, 'op->u.mem.scale': scale, 'op->u.mem.disp': disp, 'addr_reg': 0}
+        ex = PE.PrintExec(tu, {}, {}, {})
+        # execute only the shortcut arms: cut the chain at the final else
+        node = site
+        taken = None
+        while node is not None and node['k'] == 'IfStmt':
+            try:
+                c = ex.val(node['c'][0], env)
+            except F.AnalysisBroken as e_:
+                raise F.AnalysisBroken('simplify_op: shortcut condition not evaluable: %s' % e_)
+            if c is None:
+                raise F.AnalysisBroken('simplify_op: shortcut condition `%s` not evaluable' % F.src(node['c'][0])[:60])
+            if c:
+                assigns = [y for y in F.walk(node['c'][1]) if y['k'] == 'BinaryOperator' and y['op'] == '=' and F.src(F.strip(y['c'][0])) == 'addr_reg']
+                if assigns and 'mem.' in F.src(assigns[0]['c'][1]):
+                    taken = ex.val(assigns[0]['c'][1], env)
+                break
+            node = node['c'][2] if len(node['c']) > 2 else None
+        regval = {11: 1000, 22: 7}
+        want_addr = disp + (1000 if base else 0) + (7 * scale if index else 0)
+        n += 1
+        ok = taken is None or regval.get(taken) == want_addr
+        run.ob(rule, (base, index, scale, disp), ok, {'base': bool(base), 'index': bool(index), 'scale': scale, 'disp': disp,
+                                                     'shortcut register': {None: None, 11: 'base', 22: 'index'}.get(taken, taken)} if n % 8 == 1 or not ok else None)
+        if not ok and first is None:
+            first = (base, index, scale, disp, taken)
+    if first:
+        base, index, scale, disp, taken = first
+        run.violation(rule, f, 'single-register shortcut', 'for a memory operand with %s%s scale %d and displacement %d simplify_op uses the %s '
+                      'register alone as the address: `i64:(,i,8)` is lowered to `i64:(i)` and accesses address i instead of i * 8' %
+                      ('a base, ' if base else 'no base, ', 'an index,' if index else 'no index,', scale, disp, 'base' if taken == 11 else 'index'), line=site['l'])
+    return n
